@@ -55,6 +55,11 @@ def render(c, key, gen):
     vs = c["vs"]
     repr_ty = c["repr"]
     names = [f"V{i}" for i in range(len(vs))]
+    pick = vlib.seeded_pick(key, 17, 4)
+    if pick == 0:
+        names = ["a", "A", "Nan", "NaN"][:len(vs)]        # names that differ only by case
+    elif pick == 1:
+        names = ["r#fn", "_X", "X_", "__"][:len(vs)]        # raw identifier, underscores
     fieldless_all = all(v["kind"] in ("unit", "empty_tuple", "empty_brace") for v in vs)
     # rustc allows `as` on a field-less enum only if explicit discriminants sit on unit variants
     can_cast = fieldless_all and all(v["kind"] == "unit" or v["disc"]["op"] == "none" for v in vs)
